@@ -173,6 +173,9 @@ def script_text(spec: Spec, variant: int, dofile: str, gates: bool = False) -> s
             if gates:
                 L.append('vgate p "h:$rv_n"')
             L.append('printf "\\251 ok\\n" >&2')
+        if spec.noise == 2048:
+            # looks like a "do" record, and its text is nothing a target could be called (a NUL byte)
+            L.append('printf "@@REDO:do:1:1.0000@@ \\000x\\n" >&2')
         if spec.noise == 32:
             # looks like a "done" record, but its text is not "<status> <name>"
             L.append('echo "@@REDO:done:1:1.0000@@ oops" >&2')
@@ -313,7 +316,10 @@ def script_text(spec: Spec, variant: int, dofile: str, gates: bool = False) -> s
     if spec.post:
         L.append(ifchange([d.replace("%", "$2") for d in spec.post]))
     sync("end")
-    if spec.noise:
+    if spec.noise == 1024:
+        # nothing but an unterminated line after the nested builds: the script's last output follows their lines directly
+        L.append('printf "L $1 6 no newline at the end" >&2')
+    elif spec.noise:
         L.append('echo "L $1 4 after dependencies" >&2')
         if spec.noise == 16:
             L.append('printf "L $1 8 bad \\377 byte\\n" >&2')      # a byte that is not UTF-8 (a compiler quoting Latin-1 source)
